@@ -161,7 +161,7 @@ def exec_state(df, st, part, prefix):
                 continue
             bad = compare(res, exp, m, emb, nv, is_int)
             if bad:
-                part.violation(f"{prefix}/pad.{tag}/{bad[0]}", WHAT[bad[0]], dict(wit, detail=bad[1]))
+                part.violation(f"{prefix}/pad.{tag}/{bad[0]}", WHAT[bad[0]], dict(wit, detail=bad[1], expected=exp))
             if l + r > 0:
                 part.nontriv("R", tuple(n), tuple(vals), tuple(cfg["valid"]), d, tag, o["a"], o["b"], l, r, nv, ei)
     return done
@@ -170,6 +170,9 @@ def exec_state(df, st, part, prefix):
 # ------------------------------------------------------------------ channel T
 STAT = ("maximum", "minimum", "mean", "median")
 INDEX = ("edge", "wrap", "reflect", "symmetric")
+# the named action of spec/PadOpt.tla a mode belongs to
+ACTION_OF = {"constant": "QPadConstant", "maximum": "QPadStat", "minimum": "QPadStat", "mean": "QPadMean", "median": "QPadMean",
+             "edge": "QPadIndex", "wrap": "QPadIndex", "reflect": "QPadIndex", "symmetric": "QPadIndex", "linear_ramp": "QPadRamp"}
 
 
 def rand_opt(rnd, is_int):
@@ -323,18 +326,18 @@ def run_stage(ctx, df, clause_prefix):
     """M + R + T for Field.pad with modes and options; violations are recorded on ctx, nothing is finished here."""
     from . import tlaval
 
-    r = ctx.model(MODULE, f"PadOpt_{ctx.tier}.cfg", dump=True, coverage=True)
+    # -coverage switches TLC's caching of LET definitions off (2x slower): the per-action counts are taken from the dump
+    r = ctx.model(MODULE, f"PadOpt_{ctx.tier}.cfg", dump=True, coverage=False)
     cases = 0
     if r.ok:
-        for a in ("QPadConstant", "QPadStat", "QPadMean", "QPadIndex", "QPadRamp"):
-            if r.coverage.get(a, (0, 0))[0] == 0:
-                raise core._tlc.MachineryError(f"PadOpt: action {a} never fired")
         blocks = ctx.dump_blocks(r)
 
         def chunk(items):
             part = Part()
             for b in items:
-                exec_state(df, tlaval.parse_state_text(b), part, clause_prefix)
+                st = tlaval.parse_state_text(b)
+                part.note("padopt_action_" + (ACTION_OF[st["act"][2]["mode"]] if st["act"][0] == "pad" else "Init"))
+                exec_state(df, st, part, clause_prefix)
             if items:
                 st = tlaval.parse_state_text(items[-1])
                 part.sample({"channel": "R", "stage": "PadOpt", "cfg": st["cfg"], "act": st["act"]})
@@ -345,7 +348,12 @@ def run_stage(ctx, df, clause_prefix):
         cases = ctx.traces - before
         if cases == 0:
             raise core._tlc.MachineryError("PadOpt: no dumped state was executed")
-    nev = run_traces(ctx, df, 150 if ctx.tier == "quick" else 1500, clause_prefix, 400 if ctx.tier == "quick" else 700)
+        for a in sorted(set(ACTION_OF.values())):
+            fired = ctx.notes.get("padopt_action_" + a, 0)
+            if fired == 0:
+                raise core._tlc.MachineryError(f"PadOpt: action {a} never fired")
+            ctx.coverage_actions[f"{MODULE}.{a}"] = fired
+    nev = run_traces(ctx, df, 80 if ctx.tier == "quick" else 600, clause_prefix, 300 if ctx.tier == "quick" else 600)
     ctx.notes["padopt_states"] = r.distinct
     ctx.notes["padopt_impl_cases"] = cases
     ctx.assumptions += [
